@@ -161,6 +161,10 @@ pub struct Case {
     pub count_rel: Option<Rel>,
     /// scale HTLC values so that the sum is max_htlc_value relative
     pub inflight_rel: Option<Rel>,
+    /// blocks connected between NewChannel and SetupChannel, and between SetupChannel and the
+    /// request: the height HTLC expiries are measured against is the tip's at the request
+    #[serde(default)]
+    pub blocks: (u8, u8),
 }
 
 #[derive(Clone, Debug, Serialize, Deserialize, PartialEq, Eq, Hash)]
@@ -348,6 +352,21 @@ fn ref_bounds(
 pub enum Case5 {
     Bounds(Case),
     Chain(c05chain::Case),
+    Wire(WireCase),
+}
+
+/// Wire group: an outbound channel opened through the protocol handlers with a push value, then
+/// the initial commitments requested with a fundee's share at or above the push: the initial
+/// commitment may give the fundee the pushed value and no more.
+#[derive(Clone, Debug, Serialize, Deserialize)]
+pub struct WireCase {
+    pub wire_version: u8,
+    pub anchors: bool,
+    pub push_sat: u32,
+    /// how much more than the push the fundee gets in the requested commitment 0
+    pub over_sat: u32,
+    /// request: counterparty commitment (SignRemoteCommitmentTx2) or holder commitment (ValidateCommitmentTx2)
+    pub holder_side: bool,
 }
 
 pub struct C05;
@@ -392,7 +411,11 @@ impl Prop for C05 {
         match std::env::var("VERIF_C05_ONLY").unwrap_or_default().as_str() {
             "chain" => chain.boxed(),
             "bounds" => bounds.boxed(),
-            _ => prop_oneof![7 => bounds, 3 => chain].boxed(),
+            _ => {
+                let wire = (4u8..7, any::<bool>(), prop_oneof![Just(0u32), Just(500u32), Just(1000u32), Just(20_000u32)], prop_oneof![2 => Just(0u32), 1 => Just(1u32), 1 => Just(999u32), 2 => Just(400_000u32)], any::<bool>())
+                    .prop_map(|(wire_version, anchors, push_sat, over_sat, holder_side)| Case5::Wire(WireCase { wire_version, anchors, push_sat, over_sat, holder_side }));
+                prop_oneof![14 => bounds, 6 => chain, 1 => wire].boxed()
+            }
         }
     }
 
@@ -414,8 +437,67 @@ impl Prop for C05 {
                 st.class("group:chain");
                 c05chain::run(c, st, ctx)
             }
+            Case5::Wire(c) => {
+                st.class("group:wire");
+                run_wire(c, st, ctx)
+            }
         }
     }
+}
+
+fn run_wire(c: &WireCase, st: &mut CaseStats, ctx: &Ctx) -> Result<(), Violation> {
+    use crate::props::holder::finish_content;
+    use crate::props::proto::{validate_msg, Negotiation, ProtoWorld, To};
+    use vls_protocol::model::PubKey;
+    use vls_protocol::msgs::{self, Message};
+    let version = 4 + (c.wire_version % 3) as u32;
+    let mut pw = ProtoWorld::new(WorldCfg::default_testnet(), version, Negotiation::SignerCap);
+    // judged by the signer's answers, not by a comparison of the stored setup
+    pw.check_setup = false;
+    let value = 1_000_000u64;
+    let mut spec = ChanSpec::basic(1);
+    spec.anchors = c.anchors;
+    spec.outbound = true;
+    spec.value_sat = value;
+    spec.push_msat = c.push_sat as u64 * 1000;
+    let ci = match pw.new_stub(&spec) {
+        Out::Ok(i) => i,
+        _ => return Ok(()),
+    };
+    let r = pw.setup_chan(ci);
+    st.class(format!("wire:setup:{}", r.tag()));
+    if !r.is_ok() {
+        return Ok(());
+    }
+    let secp = pw.secp.clone();
+    let to_cp = c.push_sat as u64 + c.over_sat as u64;
+    let c0 = finish_content(c.anchors, value, 1000, to_cp, vec![], vec![]);
+    let rep = if c.holder_side {
+        let signed = pw.chans[ci].cp_sign_holder(&secp, 0, &c0, SigKind::Valid);
+        let vm = validate_msg(&pw.chans[ci], &secp, 0, &c0, &signed, false);
+        pw.request(To::Chan(ci), vm)
+    } else {
+        let p0 = pw.chans[ci].cp.point(&secp, 0);
+        pw.request(To::Chan(ci), Message::SignRemoteCommitmentTx2(msgs::SignRemoteCommitmentTx2 {
+            remote_per_commitment_point: PubKey(p0.serialize()),
+            commitment_number: 0,
+            feerate: c0.feerate,
+            to_local_value_sat: c0.to_holder,
+            to_remote_value_sat: c0.to_cp,
+            htlcs: vls_protocol::serde_bolt::Array(vec![]),
+        }))
+    };
+    let side = if c.holder_side { "holder" } else { "counterparty" };
+    st.class(format!("wire:initial-{}:over{}:{}", side, if c.over_sat == 0 { "0" } else { "+" }, rep.tag()));
+    st.sample = Some(json!({"wire": c, "result": rep.tag(), "err": rep.err_msg()}));
+    if rep.is_ok() && c.over_sat > 0 {
+        return ctx.report(st, Violation::new(
+            format!("C05:wire:initial-commitment-overpays-fundee:{}", side),
+            format!("channel opened over the wire (protocol v{}) with a push of {} sat; the initial {} commitment giving the fundee {} sat was accepted", version, c.push_sat, side, to_cp),
+        ));
+    }
+    st.nontrivial_shape(("wire", c.holder_side, c.push_sat, c.over_sat, rep.is_ok(), c.anchors, version));
+    Ok(())
 }
 
 fn bounds_strategy() -> BoxedStrategy<Case> {
@@ -423,9 +505,10 @@ fn bounds_strategy() -> BoxedStrategy<Case> {
             (pol_strat(), any::<u8>(), any::<bool>(), delay_rel_strat(), any::<bool>(), delay_rel_strat(), any::<bool>(), value_strat()),
             (prop_oneof![4 => Just(Rel::Zero), 1 => Just(Rel::Abs(20_000_000)), 1 => Just(Rel::Abs(u64::MAX))], any::<bool>(), entry_strat()),
             (prop_oneof![3 => Just(Rel::Zero), 4 => rel_strat(), 2 => Just(Rel::Abs(20_000))], any::<bool>(), fee_strat(), prop_oneof![1 => Just(0u32), 1 => Just(253u32), 3 => Just(1000u32), 1 => Just(5000u32), 1 => Just(u32::MAX)]),
-            (proptest::collection::vec(hgen_strat(), 0..4), prop_oneof![4 => Just(None), 1 => rel_strat().prop_map(Some)], prop_oneof![4 => Just(None), 1 => rel_strat().prop_map(Some)]),
+            (proptest::collection::vec(hgen_strat(), 0..4), prop_oneof![4 => Just(None), 1 => rel_strat().prop_map(Some)], prop_oneof![4 => Just(None), 1 => rel_strat().prop_map(Some)], (prop_oneof![3 => Just(0u8), 1 => Just(1u8), 1 => Just(5u8)], prop_oneof![3 => Just(0u8), 1 => Just(3u8)])),
         )
-            .prop_map(|((pol, ctype, outbound, holder_delay, hdm, cp_delay, cdm, value), (push, n1, entry), (minor, minor_is_holder, fee, feerate_arg), (htlcs, count_rel, inflight_rel))| Case {
+            .prop_map(|((pol, ctype, outbound, holder_delay, hdm, cp_delay, cdm, value), (push, n1, entry), (minor, minor_is_holder, fee, feerate_arg), (htlcs, count_rel, inflight_rel, blocks))| Case {
+                blocks,
                 pol, ctype, outbound, holder_delay, holder_delay_of_max: hdm, cp_delay, cp_delay_of_max: cdm, value, push, n1, entry, minor, minor_is_holder, fee, feerate_arg, htlcs, count_rel, inflight_rel,
             })
             .boxed()
@@ -460,6 +543,10 @@ fn run_bounds(case: &Case, st: &mut CaseStats, ctx: &Ctx) -> Result<(), Violatio
             _ => return Ok(()),
         };
         w.chans[ci].setup.commitment_type = ctype;
+        if case.blocks.0 > 0 {
+            crate::chainpool::connect_empty_blocks(&mut w, case.blocks.0 as u32, 1);
+            st.class("blocks_between_new_and_setup");
+        }
         let setup_res = w.setup_chan(ci);
         st.class(format!("setup:{}", setup_res.tag()));
         let warn = p.warn_tag.map(|t| TAGS[t as usize % 8]);
@@ -503,6 +590,10 @@ fn run_bounds(case: &Case, st: &mut CaseStats, ctx: &Ctx) -> Result<(), Violatio
             }
             st.nontrivial_shape(("setup-refused", case.ctype % 16, hd < p.min_delay, hd > p.max_delay, cd < p.min_delay, cd > p.max_delay));
             return Ok(());
+        }
+        if case.blocks.1 > 0 {
+            crate::chainpool::connect_empty_blocks(&mut w, case.blocks.1 as u32, 2);
+            st.class("blocks_after_setup");
         }
         let height = w.node.get_tracker().height();
         let payee = PublicKey::from_secret_key(&w.secp, &SecretKey::from_slice(&[5u8; 32]).unwrap());
